@@ -328,7 +328,8 @@ class MinGenSet():
         # With partition constraints more elements can be needed: cutting [0, total] at every number and at the prefix
         # sums of every partition constraint always works, which adds at most len(constraint) - 1 elements per constraint
         max_num_elements = len(self.initial_numbers) + 1 + sum(max(len(c) - 1, 0) for c in (self.partition_constraints or []))
-        for k in range(self.lowerbound, max(self.lowerbound, max_num_elements) + 1):
+        # (a lower bound below 1 is as good as 1: the empty model of k = 0 comes back with status kModelEmpty, which used to end the search)
+        for k in range(max(self.lowerbound, 1), max(self.lowerbound, max_num_elements) + 1):
             self._create_solver(k=k)
             self.solver.optimize()
 
